@@ -60,6 +60,8 @@ type Pipe struct {
 	delivered int // absolute
 	produced  int // absolute
 	nocut     [][2]int
+	bounds    []int // absolute offsets a single read never crosses (ends of server messages)
+	MsgBounds bool  // the reactor reports where server messages end (TakeBounds); Start/Inject output ends a message
 	mark      int
 
 	Seg       Seg
@@ -90,6 +92,9 @@ type Pipe struct {
 	StartLen int      // bytes produced on connect
 
 	AuthType transport.InChannelAuthType // only used through the WithAuth wrapper
+
+	FailWrite map[int]bool // write number (0-based, counted over all Write calls) -> fail once with an error, nothing reaches the device
+	writeNo   int
 }
 
 // NewPipe returns a pipe around reactor r.
@@ -145,6 +150,10 @@ func (p *Pipe) Open(_ *transport.Args) error {
 		p.StartLen = len(st)
 		p.StartB = append([]byte(nil), st...)
 		p.produce(st)
+
+		if p.MsgBounds {
+			p.bounds = append(p.bounds, p.produced)
+		}
 	}
 
 	p.cond.Broadcast()
@@ -187,6 +196,14 @@ func (p *Pipe) chunk(n int) int {
 		if lim < avail {
 			avail = lim
 		}
+	}
+
+	for len(p.bounds) > 0 && p.bounds[0] <= p.delivered {
+		p.bounds = p.bounds[1:]
+	}
+
+	if len(p.bounds) > 0 && p.bounds[0]-p.delivered < avail {
+		avail = p.bounds[0] - p.delivered
 	}
 
 	if avail <= 0 {
@@ -310,6 +327,15 @@ func (p *Pipe) Write(b []byte) error {
 		return errors.New("simdev: write on closed transport")
 	}
 
+	wn := p.writeNo
+	p.writeNo++
+
+	if p.FailWrite[wn] {
+		p.ev("writeerr", b)
+
+		return errEIO
+	}
+
 	if p.lost && (p.LoseKind == "eofhalf" || p.LoseKind == "errhalf") {
 		// half-closed connection: the write is accepted by the local end and goes nowhere
 		p.ev("recv-lost", b)
@@ -337,6 +363,12 @@ func (p *Pipe) Write(b []byte) error {
 
 	if p.R != nil {
 		out := p.R.OnInput(cp)
+
+		if bt, ok := p.R.(interface{ TakeBounds() []int }); ok && p.MsgBounds {
+			for _, off := range bt.TakeBounds() {
+				p.bounds = append(p.bounds, p.produced+off)
+			}
+		}
 		p.Reacts = append(p.Reacts, len(out))
 		p.ReactB = append(p.ReactB, append([]byte(nil), out...))
 		p.produce(out)
@@ -356,6 +388,11 @@ func (p *Pipe) Inject(b []byte) {
 	defer p.mu.Unlock()
 
 	p.produce(b)
+
+	if p.MsgBounds {
+		p.bounds = append(p.bounds, p.produced)
+	}
+
 	p.cond.Broadcast()
 }
 
@@ -403,6 +440,26 @@ func (p *Pipe) SetLoss(kind string, k int) {
 	p.LoseKind = kind
 	p.LoseAt = k
 	p.cond.Broadcast()
+}
+
+// WriteCount returns how many Write calls were made so far.
+func (p *Pipe) WriteCount() int {
+	p.mu.Lock()
+	defer p.mu.Unlock()
+
+	return p.writeNo
+}
+
+// ArmWriteFailure makes the n-th Write from now (0 = the next one) fail once.
+func (p *Pipe) ArmWriteFailure(n int) {
+	p.mu.Lock()
+	defer p.mu.Unlock()
+
+	if p.FailWrite == nil {
+		p.FailWrite = map[int]bool{}
+	}
+
+	p.FailWrite[p.writeNo+n] = true
 }
 
 // Counters returns delivered-since-mark and produced-since-mark.
